@@ -263,6 +263,18 @@ def run_mtag(prog, rep):
             r0 = reads[0]
             terms = [l for l in log if l[0] == 'terms' and l[1] == 'getData']
             offterm = terms[0][-1] if terms else None   # last argument = offset
+            # every read of position/extent rows happens at the row stored last *before* that read
+            for r in reads:
+                at = log.index(r)
+                before = [s for s in log[:at] if s[0] == 'store' and s[1][0] == 'elem' and s[1][2] == 0 and offterm is not None and s[1][1][0] == 'var' and ('v', s[1][1][1], s[1][1][2]) == offterm]
+                if not before or "'indices'" not in repr(before[-1][3]) or not iters_of(before[-1][3]):
+                    # a block read is acceptable only under a test that looks at every requested index (whole-list algorithm)
+                    whole = [k for k in assign if "'indices'" in repr(k) and any(a in repr(k) for a in ('adjacent_find', 'is_sorted', 'std::equal', 'all_of', 'mismatch', 'none_of', 'any_of'))]
+                    if whole:
+                        continue
+                    problems['row-selection'].append('positions/extents are read at a row that is not indices[idx] of the current request (%s): the k-th result is not region indices[k]' % (
+                        _s(before[-1][3]) if before else 'never set'))
+                    break
             row = [s for s in stores if s[1][0] == 'elem' and s[1][2] == 0 and offterm is not None and s[1][1][0] == 'var' and ('v', s[1][1][1], s[1][1][2]) == offterm]
             if not row or "'indices'" not in repr(row[-1][3]) or not iters_of(row[-1][3]):
                 problems['row-selection'].append('positions are read at offset %r whose first element is not indices[idx]' % (offterm,))
